@@ -55,7 +55,7 @@ PROP = dict(
         _leg("live", "c12_server", 20000, 400000),
         # one case = one libFuzzer session of 200 000 executions over a generated corpus (thorough tier only)
         dict(name="fuzz", harness="c12_fuzz", flavour="fuzz", mode="fuzz", args=["--runs", "200000", "--maxlen", "600"],
-             quick=0, thorough=128, case_timeout=900),
+             quick=0, thorough=96, case_timeout=900),
     ],
     rule=("segment/bigsplit: one case = one generated stream of 1-6 (1-4) well-formed HTTP/1.0/1.1 requests, each with a Content-Length header "
           "(all seven methods; targets with percent-escapes in either hex case, ;params, ?query, #fragment, empty values; 0-4 extra headers with "
